@@ -79,6 +79,9 @@ class Optimizer(Identifiable, Runnable):
             if handler.stop:
                 break
             self.optimizer.step(closure)
+            # the last in-place update happened after the closure's notification
+            for p in self.parameters:
+                p.fire_parameter_changed()
             state = self.optimizer.state_dict()['state'][0]
 
             with torch.no_grad():
